@@ -277,6 +277,7 @@ pub fn interesting(name: &str) -> bool {
             | "delete_orphan.before_unlink"
             | "quarantine_orphans.before_rename"
             | "delete_orphans.intents"
+            | "read_state.state_r"
             | "cas.open_blob"
             | "cas.rename_blob"
             | "cas.unlink_blob"
